@@ -96,6 +96,9 @@ func (w *World) onAsk(ep Endpoint, ch int, resp []byte, m Msg) int {
 		rec.WrongSrc = m.Src
 		res.Violate(w.step(), "ask-wrong-source-address", "handler of ask %d (from node %d) saw Src=%q, not one of the asker's addresses %v", rec.ID, rec.From, m.Src, w.Eps[rec.From].LocalAddrs()).With("stack", w.Spec)
 	}
+	if w.AddrHook != nil {
+		w.AddrHook(ep, m)
+	}
 	rec.Served++
 	inv := rec.Served
 	res.Probe("ask-served")
